@@ -195,7 +195,7 @@ func VerifC08_Trees() {
 	var text string
 	tU := `"` + c + `"`
 	nullableRoot := false
-	switch zzverif.IntRange("shape", 0, 16) {
+	switch zzverif.IntRange("shape", 0, 17) {
 	case 0:
 		text = "{\n  \"a\": " + d + ", // {min: " + e + "}\n  \"b\": \"" + c + "\", // {optional: true}\n  \"c\": [" + d + ", \"" + c + "\"]\n}"
 	case 1:
@@ -213,6 +213,9 @@ func VerifC08_Trees() {
 	case 9:
 		text = `@t // {nullable: true}`
 		nullableRoot = true
+	case 17: // a key shortcut that is NOT the last member
+		text = `{@u: ` + d + `, "x": "` + c + `"}`
+		tU = `"abc-1"`
 	case 15: // a type that refers to itself through a NULLABLE (but required) member
 		text = `{"x": @u}`
 		tU = "{\n  \"v\": " + d + ",\n  \"next\": @u // {nullable: true}\n}"
